@@ -429,7 +429,16 @@ def observers(h, C, more=(), more_unis=(), pairs=(), starts=()):
             O.append(Obs(f"find_links({a}, {b}, direction_sensitive={ds})", ("C09",), HELPERS + ".find_links",
                          lambda g, a=a, b=b, ds=ds: h.call(fl, g.obj(a), g.obj(b), ds, C["NEIGHBOR"]), lambda m, a=a, b=b, ds=ds: m_find_links(m, a, b, ds, "NEIGHBOR")))
     for tname, (mod, lst, gen, srch) in trav.TRAVS.items():
-        for uni, start, d in ((None, "a", "FORWARD"), ("U", "a", "FORWARD"), (None, "c", "ANY"), ("U", "b", "BACKWARD")) + tuple((u_, s_, "FORWARD") for s_ in starts for u_ in (None, "U")):
+        for uni, start, d in ((None, "a", "FORWARD"), ("U", "a", "FORWARD"), (None, "c", "ANY"), ("U", "b", "BACKWARD"), (None, "d", True), ("U", "c", False)) + tuple((u_, s_, "FORWARD") for s_ in starts for u_ in (None, "U")):
+            dval = d
+            if isinstance(d, bool):
+                # the direction given as a bool: it means whatever documented constant it equals (a bool is an int)
+                d = next((k for k in ("FORWARD", "BACKWARD", "ANY") if C[k] == dval), None)
+                if d is None:
+                    continue
+            else:
+                dval = C[d]
+
             def want(m, tname=tname, uni=uni, start=start, d=d):
                 nbm = {}
                 for v in m.vlinks:
@@ -441,8 +450,8 @@ def observers(h, C, more=(), more_unis=(), pairs=(), starts=()):
                 if not member(start):
                     return DC          # a start vertex outside the universe: not specified
                 return trav.REF[tname](nbm, start, member)
-            O.append(Obs(f"{lst}({uni}, {start}, {d})", ("C05", "C06", "C07"), f"{mod}.{gen}",
-                         lambda g, fn=f(f"{mod}.{lst}"), uni=uni, start=start, d=d: h.call(fn, g.obj(uni), g.obj(start), direction_sensitive=C[d], unknown_handling=C["NEIGHBOR"]), want))
+            O.append(Obs(f"{lst}({uni}, {start}, {d if not isinstance(dval, bool) else repr(dval) + ' (== ' + d + ')'})", ("C05", "C06", "C07"), f"{mod}.{gen}",
+                         lambda g, fn=f(f"{mod}.{lst}"), uni=uni, start=start, dval=dval: h.call(fn, g.obj(uni), g.obj(start), direction_sensitive=dval, unknown_handling=C["NEIGHBOR"]), want))
         # the same traversal twice under LNK_UNKNOWN_ERROR: with a link of unknown type on a reachable vertex both calls raise, otherwise
         # both list the reference order (a first call that raised must not leave a partial answer behind for the second)
         def want_err(m, tname=tname):
